@@ -1106,3 +1106,47 @@ func init() {
 		return sl[lo:hi]
 	}
 }
+
+func init() {
+	// vTraceCheckAtomic(op, mutex): every shared access of the current trace lies
+	// inside one and the same critical section of the named mutex.
+	apiIntrinsics["vTraceCheckAtomic"] = func(fr *frame, args []value) value {
+		op := concreteString(args[0], "operation name")
+		mu := concreteString(args[1], "mutex name")
+		evs := parseTrace(fr.r.trace)
+		secs := 0
+		inside := false
+		used := false
+		outside := ""
+		for _, e := range evs {
+			switch {
+			case (e.kind == "acqW" || e.kind == "acqR") && e.obj == mu:
+				inside, used = true, false
+			case (e.kind == "relW" || e.kind == "relR") && e.obj == mu:
+				if used {
+					secs++
+				}
+				inside = false
+			case e.kind == "rd" || e.kind == "wr":
+				if inside {
+					used = true
+				} else if outside == "" {
+					outside = e.kind + ":" + e.obj
+				}
+			}
+		}
+		if secs > 1 || outside != "" {
+			fr.r.facts["opA"] = op
+			fr.r.facts["opB"] = op
+			fr.r.facts["kind"] = "atomicity"
+			detail := fmt.Sprintf("operation %s spreads its shared accesses over %d critical sections of %s", op, secs, mu)
+			if outside != "" {
+				detail = fmt.Sprintf("operation %s accesses %s outside any critical section of %s", op, outside, mu)
+			}
+			fr.r.violation("atomicity", "C11.operation-is-one-critical-section", detail)
+		} else {
+			fr.r.obligs = append(fr.r.obligs, obligRec{Kind: "atomicity", Label: "C11.operation-is-one-critical-section", Status: "proved", Detail: "concrete", Entry: fr.r.entry})
+		}
+		return nil
+	}
+}
